@@ -3,10 +3,12 @@
 package ctlog
 
 import (
+	"bytes"
 	"context"
 	"errors"
 	"fmt"
 	"strings"
+	"sync"
 
 	"pgregory.net/rapid"
 )
@@ -61,6 +63,7 @@ type simInline struct {
 }
 
 type simHistOpts struct {
+	HTTP         bool // some submissions go through Log.Handler() with real certificate chains, SCTs are verified
 	Existing     bool // the system already holds a log (e.g. a clone of the large pre-built base)
 	Dedup        bool // track the deduplication oracle (expected source of every answer, identical acknowledgements)
 	Universe     int  // >0: entries are drawn from a small universe with near-collisions instead of fresh ids
@@ -147,6 +150,24 @@ type simHist struct {
 	must     map[string]simAck // keys that the cache must answer, with the answer they must get
 	dedupErr error
 	toolRuns int
+
+	httpNext int
+	httpSubs []*simHTTPSub          // in flight for the coming round
+	httpSent []int                  // ids submitted so far (for resubmissions)
+	scts     map[string][]byte      // dedup key -> SCT bytes of the first acknowledgement
+	HTTPAcks int
+}
+
+// setRoots installs the simulator's CA as the accepted root of a freshly loaded instance.
+func (h *simHist) setRoots() error {
+	if !h.opts.HTTP {
+		return nil
+	}
+	simCAInit()
+	if err := h.in.l.SetRootsFromPEM(simInlineCtx(context.Background()), simCA.pem); err != nil {
+		return fmt.Errorf("VERIF-INCONCLUSIVE: SetRootsFromPEM: %v", err)
+	}
+	return nil
 }
 
 func (h *simHist) resetVolatile() {
@@ -316,6 +337,9 @@ func (h *simHist) reload(t *rapid.T, withFaults bool) error {
 		h.st.Restarts++
 		if err == nil {
 			h.in = in
+			if err := h.setRoots(); err != nil {
+				return err
+			}
 			if h.afterLoad != nil {
 				if err := h.afterLoad(); err != nil {
 					return err
@@ -364,6 +388,9 @@ func (h *simHist) run(t *rapid.T) error {
 		return fmt.Errorf("LoadLog failed right after CreateLog: %v", err)
 	}
 	h.in = in
+	if err := h.setRoots(); err != nil {
+		return err
+	}
 	rounds := rapid.IntRange(1, h.opts.MaxRounds).Draw(t, "rounds")
 	for r := 0; r < rounds; r++ {
 		cur := int64(len(s.model))
@@ -395,8 +422,38 @@ func (h *simHist) run(t *rapid.T) error {
 		for _, e := range entries {
 			h.submit(context.Background(), e)
 		}
+		if h.opts.HTTP && !h.in.p.dead {
+			thisRound := map[int]bool{}
+			for k := rapid.IntRange(0, 3).Draw(t, "httpSubs"); k > 0; k-- {
+				id := h.httpNext
+				if len(h.httpSent) > 0 && rapid.IntRange(0, 2).Draw(t, "httpResubmit") == 0 {
+					id = h.httpSent[rapid.IntRange(0, len(h.httpSent)-1).Draw(t, "httpWhich")]
+					if thisRound[id] {
+						// the same chain twice in one pool would make "has the handler parked yet" ambiguous for the harness
+						continue
+					}
+				} else {
+					h.httpNext++
+					h.httpSent = append(h.httpSent, id)
+				}
+				thisRound[id] = true
+				sub := s.simHTTPSubmit(h.in, id, h.httpCert(id))
+				if h.opts.Dedup {
+					// bookkeeping of the dedup oracle for submissions that bypass h.submit
+					key := sub.Entry.dedupKey()
+					if _, isMust := h.must[key]; !isMust && !h.pending[key] {
+						h.pending[key] = true
+					}
+				}
+				h.httpSubs = append(h.httpSubs, sub)
+			}
+		}
 		h.st.FaultsFired += len(h.in.p.firedFaults())
 		if h.in.p.dead {
+			for _, sub := range h.httpSubs {
+				sub.stop()
+			}
+			h.httpSubs = nil
 			h.st.Crashes++
 			h.st.descf("round %d: crashed while submitting", r)
 			if err := h.reload(t, h.opts.Faults); err != nil {
@@ -438,6 +495,28 @@ func (h *simHist) run(t *rapid.T) error {
 		}
 		res := s.round(h.in, faults)
 		s.w.yield = nil
+		if len(h.httpSubs) > 0 {
+			nack := len(s.acks)
+			scts, err := s.simHTTPCollect(h.in, h.httpSubs, res)
+			h.httpSubs = nil
+			if err != nil {
+				return err
+			}
+			h.HTTPAcks += len(s.acks) - nack
+			if h.scts == nil {
+				h.scts = map[string][]byte{}
+			}
+			for k, b := range scts {
+				if prev, ok := h.scts[k]; ok && h.opts.Dedup {
+					if _, intact := h.must[k]; intact && !bytes.Equal(prev, b) {
+						return fmt.Errorf("resubmission of the same chain returned a different SCT while the cache was intact:\n first %s\n later %s", prev, b)
+					}
+				}
+				if _, ok := h.scts[k]; !ok || !h.opts.Dedup {
+					h.scts[k] = b
+				}
+			}
+		}
 		if h.opts.Dedup {
 			h.inSeq = map[string]bool{}
 			if h.dedupErr != nil {
@@ -552,4 +631,17 @@ func (h *simHist) finish() error {
 		return errors.New(strings.Join(errs, "\n"))
 	}
 	return nil
+}
+
+
+var simLeafCache sync.Map
+
+// httpCert returns the (cached) certificate of an HTTP submission id: a resubmission must be byte-identical.
+func (h *simHist) httpCert(id int) []byte {
+	if v, ok := simLeafCache.Load(id); ok {
+		return v.([]byte)
+	}
+	der := simLeafCert(id)
+	simLeafCache.Store(id, der)
+	return der
 }
